@@ -41,7 +41,7 @@ RULE = (
     "mode, dictionary); non-trivial = the dictionary selects an overload, a pre-set/default option or a template."
 )
 ASSUMPTIONS = ["graphs are built from importable module-level functions in explicit dataset(f) form; the decorator form is the recorded finding pickle-decorator-form-dataset"]
-FLOORS = {"roundtrips": (36, 36), "outcomes_compared": (1100, 1100), "child_interpreters": (12, 36), "post_load_registrations": (18, 18),
+FLOORS = {"roundtrips": (54, 54), "outcomes_compared": (2000, 2000), "child_interpreters": (18, 54), "post_load_registrations": (24, 24),
           "unpickled_register_schedules": (150, 1500)}
 SHARDS_QUICK = 2
 SHARDS_THOROUGH = 4
@@ -135,8 +135,11 @@ def post_load_usable(ctx, name, g2):
     try:
         g2.register("late", Value(("registered-late",)))
         g2.overload("late2")(M.late_overload)
-        v1 = observe(g2.evaluate, {"D": "late", "C": 1})
-        v2 = observe(g2.evaluate, {"D": "late2", "C": 1, "E": "ee"})
+        from .. import universe as U
+
+        dkey = M.DISPATCH_KEY.get(name, "D")
+        v1 = observe(g2.evaluate, U.set_path({"C": 1}, dkey, "late"))
+        v2 = observe(g2.evaluate, U.set_path({"C": 1, "E": "ee"}, dkey, "late2"))
     except Exception as e:  # noqa: BLE001
         ctx.violation("copy-not-usable", f"{name}: registering on the unpickled copy raised {type(e).__name__}: {e}", {"graph": name})
         return
